@@ -9,14 +9,15 @@ func (p *Primary) GetReplicaInfo() []ReplicationNodeInfo {
 
 	// Convert replica sessions to ReplicationNodeInfo
 	for _, session := range p.sessions {
-		if !session.Connected {
+		st := session.state()
+		if !st.Connected {
 			continue
 		}
 
 		replica := ReplicationNodeInfo{
 			Address:      session.ListenerAddress, // Use actual listener address
-			LastSequence: session.LastAckSequence,
-			Available:    session.Active,
+			LastSequence: st.LastAckSequence,
+			Available:    st.Active,
 			Region:       "",
 			Meta:         map[string]string{},
 		}
